@@ -2660,6 +2660,14 @@ impl Sess {
         self.rng.shuffle(&mut txs);
         let shares: Vec<Vec<TransactionView>> = (0..3).map(|k| txs.iter().skip(k).step_by(3).cloned().collect()).collect();
         let delay_us = self.xrng.below(2_500);
+        if !late.is_empty() {
+            // the pool service is slow when it takes detached transactions back (hook H5c), the
+            // contested submissions keep coming meanwhile
+            let mut points = std::collections::BTreeMap::new();
+            points.insert("pool::before_reorg_lock", (250u64, 2_500u64));
+            points.insert("pool::readd_before_verify", (2000u64, 1_500u64));
+            hooks::set_plan(hooks::DelayPlan { points, seed: self.salt });
+        }
         let mut results: Vec<(TransactionView, Result<(), String>)> = vec![];
         let mut delivered = false;
         let mut channel_error = false;
@@ -2689,7 +2697,7 @@ impl Sess {
                             Ok(x) => results.push((t.clone(), x.map(|_| ()).map_err(|e| e.to_string()))),
                             Err(_) => channel_error = true,
                         }
-                        std::thread::sleep(Duration::from_micros(150));
+                        std::thread::sleep(Duration::from_micros(400));
                     }
                 }
                 for h in hs {
@@ -2702,6 +2710,7 @@ impl Sess {
                 }
             });
         }
+        set_default_delay_plan(self.salt);
         if !delivered {
             self.cur_op = "";
             return false;
